@@ -515,9 +515,10 @@ def run(repo, res, tier):
             res.check("W6-INPUTS", "%s: the writer's inputs (%s) are not re-assigned while writing" % (qn, ", ".join(sorted(INPUTS))), not clobbers, mod, clobbers[0][0] if clobbers else fn, "%s: %s assigns self.%s" % (qn, clobbers[0][1] if clobbers else "", clobbers[0][2] if clobbers else ""), "a write call changes what the writer writes: the next call of the same writer gives another content than an identically constructed writer", qualname=qn)
     # ---------------- W3 on the public write methods: decided by evaluation (file name x existence x policy x reply)
     public_write_rule(repo, res, writers, PUBLIC)
-    # the shared policy helper
+    # the shared policy helper _handle_file_path is decided by handle_path_rule above (every name / existence / policy /
+    # reply case evaluated); the structural rule that read its if-chain was removed when round 5 moved the decision
+    # into a callable policy object
     fw = repo.cls(WI, "FileWriter")
-    _policy(res, imod, fw.methods["_handle_file_path"], "FileWriter._handle_file_path", returns_empty=True)
     # constructor remembers the precision per writer
     init = fw.methods["__init__"]
     ok = any(isinstance(n, ast.Assign) and isinstance(n.targets[0], ast.Attribute) and norm(n.targets[0]).startswith("self.") and norm(n.value) == "decimal_precision" for n in walk_no_nested(init))
